@@ -108,7 +108,7 @@ type delivery struct {
 func deliver(r *core.Run, a, f *Party, base *Issued) delivery {
 	d := delivery{base: base}
 	cur := a.Current()
-	switch k := r.Intn(16, "channel-op"); k {
+	switch k := r.Intn(17, "channel-op"); k {
 	case 0, 1:
 		d.bytes, d.op, d.genuine = base.Bytes, "genuine", true
 	case 2:
@@ -204,6 +204,25 @@ func deliver(r *core.Run, a, f *Party, base *Issued) delivery {
 		sig := [][]byte{nil, {}, bytes.Repeat([]byte{0x42}, 256), base.Proto.Signature}[r.Intn(4, "nonrsa-signature")]
 		d.bytes, _ = proto.Marshal(&epb.VMLaunchEndorsement{SerializedUefiGolden: payload, Signature: sig})
 		d.op = "resign:root-issued-non-rsa-key-cert+arbitrary-signature"
+	case 16:
+		// the forger runs a CA of its own and names it in the endorsement's ca_bundle next to the
+		// genuine root (in either order, or alone): the bundle is the sender's say-so, only the
+		// caller's roots anchor a chain
+		ck, sk := AttackerKey(a, 1), AttackerKey(a, 2)
+		forgerCA := OtherRoot(a.Root, ck)
+		g := proto.Clone(base.Golden).(*epb.VMGoldenMeasurement)
+		order := r.Intn(4, "forged-bundle-order")
+		switch order {
+		case 0:
+			g.CaBundle = pemOf(a.Root, forgerCA)
+		case 1:
+			g.CaBundle = pemOf(forgerCA, a.Root)
+		case 2:
+			g.CaBundle = pemOf(forgerCA)
+		default:
+			g.CaBundle = pemOf(a.Root, IntermediateCA(forgerCA, ck, AttackerKey(a, 3)), forgerCA)
+		}
+		d.bytes, d.op = Reassemble(g, ForgeCert(sk, forgerCA, ck, base.Cert.NotBefore, base.Cert.NotAfter, 83), sk, 0), fmt.Sprintf("resign:forger-ca-named-in-bundle-%d", order)
 	case 14:
 		// the certificate field holds the genuine signer certificate FOLLOWED by a certificate of
 		// the forger's own (any issuer), and the payload is signed by the forger's key: one
